@@ -39,7 +39,7 @@ def make(name, rng):
             if name == "DeepSup":
                 ncls = rng.choice([1, 2, 3])
                 def gen(n):
-                    return ([cc_rows(rng, n, di) for di in dsl], np.array([rng.randrange(ncls) for _ in range(n)]))
+                    return ([cc_rows(rng, n, di) for di in dsl], ydt(rng, [rng.randrange(ncls) for _ in range(n)]))
                 return dict(est=est, gen=gen, pf=True, sup=True, kind="deep")
             def gen(n):
                 return ([cc_rows(rng, n, di) for di in dsl], None)
@@ -100,7 +100,7 @@ def make(name, rng):
 
             def gen(n):
                 ys = [names[rng.randrange(max(1, ncls - 1) if (late and i < (n + 1) // 2) else ncls)] for i in range(n)]
-                return cc_rows(rng, n, d), np.array(ys)
+                return cc_rows(rng, n, d), ydt(rng, ys)
             return dict(est=est, gen=gen, pf=True, sup=True)
         if name in ("SAM_DV", "ARTMAP_DV"):
             rho = rng.choice([0.5, 0.75, 0.875])
@@ -108,25 +108,38 @@ def make(name, rng):
             d = rng.choice([1, 2])
             if name == "SAM_DV":
                 ncls = rng.choice([2, 3])
-                return dict(est=artlib.SimpleARTMAP(dv), gen=lambda n: (cc_rows(rng, n, d), np.array([rng.randrange(ncls) for _ in range(n)])), pf=True, sup=True)
+                return dict(est=artlib.SimpleARTMAP(dv), gen=lambda n: (cc_rows(rng, n, d), ydt(rng, [rng.randrange(ncls) for _ in range(n)])), pf=True, sup=True)
             return dict(est=artlib.ARTMAP(dv, _fz(rng)), gen=lambda n: (cc_rows(rng, n, d), cc_rows(rng, n, 1)), pf=True, sup=True)
         if name == "SAM_Fusion":
             ds = [rng.choice([1, 2]) for _ in range(2)]
             fus = artlib.FusionART([_fz(rng) for _ in range(2)], [0.5, 0.5], [2 * d for d in ds])
             ncls = rng.choice([2, 3])
-            return dict(est=artlib.SimpleARTMAP(fus), gen=lambda n: (np.hstack([cc_rows(rng, n, d) for d in ds]), np.array([rng.randrange(ncls) for _ in range(n)])), pf=True, sup=True)
+            return dict(est=artlib.SimpleARTMAP(fus), gen=lambda n: (np.hstack([cc_rows(rng, n, d) for d in ds]), ydt(rng, [rng.randrange(ncls) for _ in range(n)])), pf=True, sup=True)
         if name == "SAM_K":
             import kernfam
             kind = rng.choice(kernfam.KINDS)
             d = rng.choice([1, 2, 3])
             pk = kernfam.gen_params(rng, kind, d)
             ncls = rng.choice([2, 3])
-            return dict(est=artlib.SimpleARTMAP(kernfam.make(kind, pk)), gen=lambda n: (np.asarray(kernfam.gen_data(rng, kind, max(n, 3), d), dtype=float), np.array([rng.randrange(ncls) for _ in range(max(n, 3))])), pf=True, sup=True)
+            return dict(est=artlib.SimpleARTMAP(kernfam.make(kind, pk)), gen=lambda n: (np.asarray(kernfam.gen_data(rng, kind, max(n, 3), d), dtype=float), ydt(rng, [rng.randrange(ncls) for _ in range(max(n, 3))])), pf=True, sup=True)
         if name == "ARTMAP":
             est = artlib.ARTMAP(_fz(rng), _fz(rng))
             d = rng.choice([1, 2])
             return dict(est=est, gen=lambda n: (cc_rows(rng, n, d), cc_rows(rng, n, 1)), pf=True, sup=True)
     raise ValueError(name)
+
+
+def ydt(rng, y):
+    """class targets as callers store them: booleans for two classes, a narrow unsigned dtype, or the platform integer"""
+    y = np.asarray(y)
+    r = rng.random()
+    if y.size and y.min() >= 0 and y.max() <= 1 and r < 0.3:
+        return y.astype(bool)
+    if y.size and y.min() >= 0 and y.max() < 256 and r < 0.55:
+        return y.astype(np.uint8)
+    if r < 0.7:
+        return y.astype(np.int32)
+    return y
 
 
 NAMES = ["Fusion", "DualVigilance", "Topo", "CVIART", "iCVIFuzzy", "SimpleARTMAP", "ARTMAP"]
